@@ -47,15 +47,15 @@ KANI_UNITS["C08"] = dict(
 KANI_UNITS["C11"] = dict(
     prop="C11", crate="varpulis-runtime",
     appends=[("crates/varpulis-runtime/src/engine/evaluator.rs", "__vpv_c11", "contracts/kani/c11.rs")],
-    grade="K-complete", level="proof", timeout=3000, harness_timeout=240,
-    cell_grades={"c11_index_|c11_slice_|c11_fn_get_array|c11_fn_set_array|c11_fn_substring|c11_bin_add_ss": "K-bounded(container/string literal of length 2; indices full-domain i64)"},
-    functions=["varpulis-runtime/src/engine/evaluator.rs: eval_expr_with_functions (Binary arm: all 24 BinOp variants; Unary arm: all 3; Index, Slice, If, Coalesce arms; literal arms)",
-               "varpulis-runtime/src/engine/evaluator.rs: eval_builtin_function (abs sqrt floor ceil round pow log log10 exp sin cos min max to_int to_float is_null is_int type_of get set substring)"],
+    grade="K-complete", level="proof", timeout=4800, harness_timeout=int(os.environ.get("VPV_HT", "600")),
+    cell_grades={"c11_bin_add_ss": "K-bounded(2-byte string literals)"},
+    functions=["varpulis-runtime/src/engine/evaluator.rs: eval_expr_with_functions (Binary arm: all 24 BinOp variants; Unary arm: all 3; literal arms)",
+               "varpulis-runtime/src/engine/evaluator.rs: eval_builtin_function (abs sqrt floor ceil round pow log log10 exp sin cos min max is_null is_int type_of)"],
     explanation=("One cell per (operator, operand kinds) / built-in: the REAL evaluator is run on an expression whose operands are Int/Float/Bool literals "
                  "with full-domain i64/f64 payloads (incl. i64::MIN/MAX, -1, 0, NaN, +-inf) — built-ins additionally take a symbolic kind; the obligation is that "
                  "none of Kani's panic checks (arithmetic overflow, division/remainder by zero or overflow, index/slice bounds, unwrap on None, explicit panic) "
-                 "is reachable. Loop-free cells are complete; Index/Slice/get/set/substring use a container literal of length 2 (bounded in the container, "
-                 "full-domain in the index) and are labelled bounded. NOT covered: operands read from event fields (hash-map lookup is out of CBMC's reach), "
+                 "is reachable. Loop-free cells are complete. NOT covered (measured: these cells did not finish in 25 min of CBMC each — Vec<Value>/String clone and drop glue, and one "
+                 "unrolling of the recursive evaluator per tree level): Index / Slice / If / Coalesce arms, get / set / substring / to_int / to_float; also: operands read from event fields (hash-map lookup is out of CBMC's reach), "
                  "string built-ins over arbitrary strings, `tan` (unsupported foreign call in Kani), user-defined function statements, range materialisation (excluded by the property)."),
     assumptions=EVAL_STUBS + ["CBMC's own float-model checks (NaN on ..., float overflow) are not Rust panics and are ignored by class"],
 )
@@ -75,14 +75,17 @@ KANI_UNITS["C10"] = dict(
     appends=[("crates/varpulis-runtime/src/engine/evaluator.rs", "__vpv_c10", "contracts/kani/c10.rs")],
     extra_appends=[("crates/varpulis-parser/src/optimize.rs", C10_SHIM)],
     grade="K-complete", level="proof", timeout=5400, harness_timeout=600,
-    cell_grades={"c10_expr_|c10_shape_": "K-bounded(expression depth 2-3)", "_str$": "K-bounded(2-byte string literal)"},
-    functions=["varpulis-parser/src/optimize.rs: fold_binary (every arm: 10 literal arms, 8 identity arms, reconstruct), fold_unary, fold_expr (depth-2 shell)",
+    cell_grades={"_str$": "K-bounded(2-byte string literal)"},
+    functions=["varpulis-parser/src/optimize.rs: fold_binary (every arm: 10 literal arms, 8 identity arms, reconstruct), fold_unary",
                "varpulis-runtime/src/engine/evaluator.rs: eval_expr_with_functions (as the semantics both sides are compared under)"],
     explanation=("One cell per rewrite arm of the REAL fold_binary/fold_unary: for literal x literal arms the operands are full-domain i64/f64; for the identity "
                  "arms (x*0, 0*x, x*1, 1*x, x+0, 0+x, x-0, x/1) the wildcard operand ranges over literal leaves of every other kind (Float full-domain, Str, Bool, "
-                 "Null) and over the literal-only sub-expression 1/0 which evaluates to NO value. Contract: the REAL evaluator gives the same Option<Value> (Value::eq) "
+                 "Null). Contract: the REAL evaluator gives the same Option<Value> (Value::eq) "
                  "for the folded and the unfolded expression and neither side panics. Loop-free full-domain cells are complete proofs of their arm. Field references "
-                 "are represented by literal leaves of each value type (event-field lookup is a hash-map lookup, outside CBMC's reach)."),
+                 "are represented by literal leaves of each value type (event-field lookup is a hash-map lookup, outside CBMC's reach). NOT covered (measured: CBMC unrolls the "
+                 "recursive evaluator once per tree level and does not finish trees deeper than root+leaves in 25 min): fold_expr's recursive shell over nested expressions, "
+                 "operands that evaluate to no value, and any NEW rewrite arm that matches nested shapes such as (x+a)+b or x+a<b (seeded C10-m1/m2 are missed). The Pow/Int-Int arm "
+                 "is compared through CBMC's nondeterministic model of powi and is therefore not decided (cell removed, listed)."),
     assumptions=EVAL_STUBS + ["cfg(kani) re-export shim appended to optimize.rs (3 one-line wrappers)", "Value::eq is the notion of 'same value' (NaN == NaN, -0.0 == 0.0)"],
 )
 
